@@ -340,7 +340,7 @@ func parsePreserveAspectRatio(s string) (out preserveAspectRatio) {
 	out.xPosition, out.yPosition = "min", "min"
 	aspectRatio := strings.Split(s, " ")
 	align := aspectRatio[0]
-	if align != "none" || len(align) >= 5 {
+	if align != "none" && len(align) >= 5 {
 		out.xPosition = strings.ToLower(align[1:4])
 		out.yPosition = strings.ToLower(align[5:])
 	}
